@@ -15,7 +15,6 @@ Definition hlc_now (h p : N) : N :=
 Definition hlc_update (h t : N) : N := if h <? t then t else h.
 
 (* the same on uint64, wrap written out *)
-Definition two64 : N := 18446744073709551616.
 Definition hlc_now64 (h p : N) : N :=
   let p' := mask48 (p mod two64) in if p' <=? h then (h + 1) mod two64 else p'.
 
